@@ -367,7 +367,7 @@ async def _run(sc: dict, holder: dict | None = None) -> dict:
     gc.collect()
     await vloop.drain(2)
     R.rec(e="End", k=type(ctx.state).__name__)
-    return {"echo_to": tu(ctx.echo_timeout), "rply_to": tu(ctx.reply_timeout), "ev": R.ev}
+    return {"echo_to": tu(ctx.echo_timeout), "rply_to": tu(ctx.reply_timeout), "untimed": 0, "ev": R.ev}
 
 
 class _Stuck(BaseException):
@@ -416,7 +416,7 @@ def run_scenario(sc: dict, stuck_s: float = 10.0) -> dict:
                 raise
             R = holder["R"]
             ctx = holder["ctx"]
-            return {"echo_to": tu(ctx.echo_timeout), "rply_to": tu(ctx.reply_timeout), "ev": R.ev}
+            return {"echo_to": tu(ctx.echo_timeout), "rply_to": tu(ctx.reply_timeout), "untimed": 0, "ev": R.ev}
     finally:
         signal.setitimer(signal.ITIMER_REAL, 0)
         signal.signal(signal.SIGALRM, old)
